@@ -38,7 +38,7 @@ class C04(SessionCheck):
         if io.get('hung_threads'):
             return ('C04:call-outlived-timeout', 'a synchronous call never returned')
         for c in io['calls']:
-            if c['dt'] > tmo + 1.0:
+            if c['dt'] > tmo + 2.5:
                 return ('C04:call-outlived-timeout', 'call %s took %.2fs with timeout %.1fs' % (c['tag'], c['dt'], tmo))
             if c['out'][0] == 'reply':
                 if c['out'][2] != c['tag']:
